@@ -1,6 +1,7 @@
 package props
 
 import (
+	"go/types"
 	"golang.org/x/tools/go/ssa"
 
 	"sidecheck/core"
@@ -19,8 +20,12 @@ func (r *Run) factsImplyAny(facts []core.Fact, alts []string, depth int) bool {
 				return true
 			}
 		}
-		if (fc.Kind == "true" || fc.Kind == "false") && depth > 0 && fc.A != nil && fc.A.Op == "call" && fc.A.Callee != nil {
-			if r.resultImplies(fc.A.Callee, fc.A.Args, fc.Kind == "true", alts, depth-1) {
+		if (fc.Kind == "true" || fc.Kind == "false") && depth > 0 && fc.A != nil {
+			call := fc.A
+			if call.Op == "res" && call.Idx == 0 && len(call.Args) == 1 {
+				call = call.Args[0] // the boolean first result of `v, err := g(...)`
+			}
+			if call.Op == "call" && call.Callee != nil && r.resultImplies(call.Callee, call.Args, fc.Kind == "true", alts, depth-1) {
 				return true
 			}
 		}
@@ -30,7 +35,11 @@ func (r *Run) factsImplyAny(facts []core.Fact, alts []string, depth int) bool {
 
 // resultImplies: whenever g(actual...) returns val, one of alts holds.
 func (r *Run) resultImplies(g *ssa.Function, actual []*core.Term, val bool, alts []string, depth int) bool {
-	if len(g.Blocks) == 0 || !r.P.IsSubject(g) || hasCycle(g) || g.Signature.Results().Len() != 1 || len(actual) != len(g.Params) {
+	if len(g.Blocks) == 0 || !r.P.IsSubject(g) || hasCycle(g) || len(actual) != len(g.Params) {
+		return false
+	}
+	// a single boolean result, or (bool, error)
+	if rs := g.Signature.Results(); rs.Len() < 1 || rs.Len() > 2 || !types.Identical(rs.At(0).Type().Underlying(), types.Typ[types.Bool]) || (rs.Len() == 2 && rs.At(1).Type().String() != "error") {
 		return false
 	}
 	gf := r.E.Facts(g, core.Ctx{})
@@ -44,11 +53,22 @@ func (r *Run) resultImplies(g *ssa.Function, actual []*core.Term, val bool, alts
 	avoid := func(a, b *ssa.BasicBlock) bool {
 		return r.factsImplyAny(subst(gf.EdgeFacts(a, b)), alts, depth)
 	}
+	failing := map[*ssa.Return]bool{}
+	if g.Signature.Results().Len() == 2 {
+		for _, ri := range gf.Returns() {
+			if ri.Class == core.RetFail {
+				failing[ri.Ret] = true
+			}
+		}
+	}
 	nRet := 0
 	for _, b := range g.Blocks {
 		ret, ok := b.Instrs[len(b.Instrs)-1].(*ssa.Return)
 		if !ok {
 			continue
+		}
+		if failing[ret] {
+			continue // (value, error) helper: the caller uses the value only under a nil error
 		}
 		nRet++
 		v := core.RetOp(ret, 0)
